@@ -613,6 +613,188 @@ def gen_aw(chk):
 
 
 # --------------------------------------------------------------------------
+# file-system call boundaries inside one call of the source (used by c10.py too)
+# --------------------------------------------------------------------------
+class _TapFile:
+    """the file object open() returned for the tapped path: every read call is a file-system call boundary."""
+
+    def __init__(self, tap, f):
+        self._tap, self._f = tap, f
+
+    def _counted(self, name, fn, *a):
+        try:
+            r = fn(*a)
+        except BaseException:
+            self._tap._after(name)
+            raise
+        self._tap.pieces.append(r)
+        self._tap._after(name)
+        return r
+
+    def read(self, *a):
+        return self._counted("read", self._f.read, *a)
+
+    def read1(self, *a):
+        return self._counted("read", self._f.read1, *a)
+
+    def readall(self):
+        return self._counted("read", self._f.readall)
+
+    def readline(self, *a):
+        return self._counted("read", self._f.readline, *a)
+
+    def readlines(self, *a):
+        r = self._counted("read", self._f.readlines, *a)
+        self._tap.pieces.pop()
+        self._tap.pieces.extend(r)
+        return r
+
+    def readinto(self, b):
+        try:
+            n = self._f.readinto(b)
+        except BaseException:
+            self._tap._after("read")
+            raise
+        self._tap.pieces.append(bytes(b[:n or 0]))
+        self._tap._after("read")
+        return n
+
+    readinto1 = readinto
+
+    def __iter__(self):
+        return self
+
+    def __next__(self):
+        line = self._f.readline()
+        self._tap.pieces.append(line)
+        self._tap._after("read")
+        if not line:
+            raise StopIteration
+        return line
+
+    def __enter__(self):
+        self._f.__enter__()
+        return self
+
+    def __exit__(self, *exc):
+        return self._f.__exit__(*exc)
+
+    def __getattr__(self, n):
+        return getattr(self._f, n)
+
+
+class FsTap:
+    """While active, counts the file-system calls made on `path` - os.stat / os.lstat (hence os.path.getsize,
+    getmtime, exists, isfile, pathlib.Path.stat), open / io.open / os.open, os.fstat on a descriptor of the path, and
+    every read call on a file object opened for it - and runs `fire()` once, right after the k-th of them has
+    returned or raised.  Nothing about the caller is assumed: whatever calls it makes, in whatever order, each one is
+    a boundary.  `log` = the calls seen, `pieces` = what the read calls returned, `fired_at` = k when fired."""
+
+    def __init__(self, path, k=None, fire=None):
+        self.path, self.k, self.fire = os.fspath(path), k, fire
+        self.n, self.log, self.pieces, self.fired_at, self.opened = 0, [], [], None, 0
+        self.active = False
+        self._fds = set()
+
+    def _mine(self, p):
+        try:
+            if isinstance(p, int):
+                return p in self._fds
+            p = os.fspath(p)
+            if isinstance(p, bytes):
+                p = os.fsdecode(p)
+            return p == self.path
+        except TypeError:
+            return False
+
+    def _after(self, name):
+        self.n += 1
+        self.log.append(name)
+        if self.k is not None and self.n == self.k and self.fired_at is None and self.fire is not None:
+            self.fired_at = self.n
+            self.active = False
+            try:
+                self.fire()
+            finally:
+                self.active = True
+
+    def content(self):
+        """what the call read from the path (None if it never opened it)."""
+        if not self.opened:
+            return None
+        ps = [x for x in self.pieces if x is not None]
+        if ps and isinstance(ps[0], str):
+            return "".join(ps).encode("utf-8", "surrogatepass")
+        return b"".join(ps)
+
+    def __enter__(self):
+        T = self
+        self._saved = (os.stat, os.lstat, builtins.open, io.open, os.open, os.fstat)
+        r_stat, r_lstat, r_open, _r_ioopen, r_osopen, r_fstat = self._saved
+
+        def counted(name, real, mine):
+            def f(p, *a, **kw):
+                if not (T.active and mine(p)):
+                    return real(p, *a, **kw)
+                try:
+                    r = real(p, *a, **kw)
+                except BaseException:
+                    T._after(name)
+                    raise
+                T._after(name)
+                return r
+            return f
+
+        def t_open(p, *a, **kw):
+            if not (T.active and T._mine(p)):
+                return r_open(p, *a, **kw)
+            try:
+                f = r_open(p, *a, **kw)
+            except BaseException:
+                T._after("open")
+                raise
+            T.opened += 1
+            T._after("open")
+            return _TapFile(T, f)
+
+        def t_osopen(p, *a, **kw):
+            if not (T.active and T._mine(p)):
+                return r_osopen(p, *a, **kw)
+            try:
+                fd = r_osopen(p, *a, **kw)
+            except BaseException:
+                T._after("os.open")
+                raise
+            T._fds.add(fd)
+            T.opened += 1
+            T._after("os.open")
+            return fd
+
+        os.stat = counted("stat", r_stat, T._mine)
+        os.lstat = counted("lstat", r_lstat, T._mine)
+        os.fstat = counted("fstat", r_fstat, T._mine)
+        builtins.open = io.open = t_open
+        os.open = t_osopen
+        self.active = True
+        return self
+
+    def __exit__(self, *exc):
+        self.active = False
+        os.stat, os.lstat, builtins.open, io.open, os.open, os.fstat = self._saved
+        return False
+
+
+def fs_calls_of(fn, path):
+    """dry run: the file-system calls `fn()` makes on `path` (names, in order)."""
+    with FsTap(path) as t:
+        try:
+            fn()
+        except Exception:  # noqa: BLE001
+            pass
+    return t.log
+
+
+# --------------------------------------------------------------------------
 # fam "seq" / "doc": histories of the source
 # --------------------------------------------------------------------------
 # short on purpose: the model runner's text decoding dominates its running time
@@ -791,6 +973,9 @@ def _to_model_ops(c):
             ops.append(["l"])
         elif sym.startswith("E:"):
             ops.append(["e", None if sym[2] == "Q" else wop(sym[2:])])
+        elif sym.startswith("E@"):    # E@<k>:<change> - the change lands after the k-th file-system call of etag()
+            ks, _, x = sym[2:].partition(":")
+            ops.append(["e@", int(ks), None if x[0] == "Q" else wop(x)])
         elif sym[0] == "Q":
             ops.append(["w", None])
         else:
@@ -870,47 +1055,131 @@ def _run_seq_impl(c, d, uniq):
         return ["set", alt, mt]
 
     obs = []
+    out_ops = []          # the model history: in-call changes resolved to the model's two forms
+    states = [disk()]     # every state of the file along the history (also those inside a call)
+    calls = []            # per etag() call: what the harness knows about it (not about the source's internals)
+    info = {"torn": False, "incall": 0}
+
+    def world(w):
+        apply(w)
+        states.append(disk())
+
+    def etag_value():
+        try:
+            return ["tag", src.etag()]
+        except FileNotFoundError:
+            return ["tagraise"]
+        except Exception as e:  # noqa: BLE001
+            return ["tagraise", type(e).__name__]
+
+    def fresh_tag():
+        try:
+            return ["tag", FilePolicySource(path, include_mtime_in_etag=bool(c.get("incl"))).etag()]
+        except Exception as e:  # noqa: BLE001
+            return ["tagraise", type(e).__name__]
+
+    nonquiet = any(op[0] == "e@" or (op[0] == "e" and op[1] != ["none"]) for op in mops)
     for i, op in enumerate(mops):
         if op[0] == "w":
             if op[1] is None:
                 op[1] = resolve_silent()
-            apply(op[1])
+            world(op[1])
+            out_ops.append(op)
         elif op[0] == "l":
             try:
                 v = ["ok", src.load()]
             except Exception as e:  # noqa: BLE001
                 v = ["raise", type(e).__name__]
             obs.append({"kind": "load", "value": v, "disk": disk()})
+            out_ops.append(op)
         else:
-            mid = op[1]
+            k, mid = (op[1], op[2]) if op[0] == "e@" else (1, op[1])
             if mid is None:
-                mid = op[1] = resolve_silent()
-            fired = []
-
-            def stat_then_world(p, *a, **kw):
-                if p == path and not fired:
-                    fired.append(1)
-                    try:
-                        return real_stat(p, *a, **kw)
-                    finally:
-                        os.stat = real_stat
-                        apply(mid)
-                return real_stat(p, *a, **kw)
-
-            if mid[0] != "none":
-                os.stat = stat_then_world
-            try:
-                try:
-                    v = ["tag", src.etag()]
-                except FileNotFoundError:
-                    v = ["tagraise"]
-                except Exception as e:  # noqa: BLE001
-                    v = ["tagraise", type(e).__name__]
-            finally:
-                os.stat = real_stat
-            obs.append({"kind": "tag", "value": v, "disk": disk()})
+                mid = resolve_silent()
+            start = disk()
+            if mid[0] == "none":
+                v = etag_value()
+                o = {"kind": "tag", "value": v, "disk": disk()}
+                if nonquiet:
+                    o["fresh"] = fresh_tag()
+                obs.append(o)
+                calls.append({"start": start, "inside": False, "read": None, "value": v, "obs": len(obs) - 1})
+                out_ops.append(["e", ["none"]])
+                continue
+            info["incall"] += 1
+            tap = FsTap(path, k, fire=lambda: world(mid))
+            with tap:
+                v = etag_value()
+            R = tap.content()
+            rec = {"start": start, "inside": tap.fired_at is not None, "read": R, "value": v, "k": k,
+                   "fs_calls": list(tap.log), "obs": len(obs)}
+            calls.append(rec)
+            if tap.fired_at is None:
+                # the call made fewer than k file-system calls: the change follows it
+                world(mid)
+                obs.append({"kind": "tag", "value": v, "disk": start, "after_call": True})
+                out_ops += [["e", ["none"]], ["w", mid]]
+                continue
+            post = states[-1]
+            opens = [j + 1 for j, nm in enumerate(tap.log) if nm in ("open", "os.open")]
+            if not opens or tap.fired_at < opens[0]:
+                form = "mid"            # after the stat(s), before the file is opened: the model's mid-call change
+            elif R == start[0]:
+                form = "after"          # the call had read the old bytes: as if the change followed the call
+            elif R is not None and R == post[0]:
+                form = "mid"            # opened before, read after an in-place rewrite: old signature, new bytes
+            else:
+                form = "mid"
+                info["torn"] = True     # bytes of both contents: no counterpart in the model
+            if form == "mid":
+                obs.append({"kind": "tag", "value": v, "disk": disk(), "inside": True})
+                out_ops.append(["e", mid])
+            else:
+                obs.append({"kind": "tag", "value": v, "disk": start, "inside": True})
+                out_ops += [["e", ["none"]], ["w", mid]]
+    # once the file has stopped changing: two more etag() calls, each against what a fresh source reports
+    if nonquiet:
+        for _ in range(2):
+            start = disk()
+            v = etag_value()
+            calls.append({"start": start, "inside": False, "read": None, "value": v, "obs": None,
+                          "fresh": fresh_tag(), "tail": True})
+    info["states"] = states
+    info["calls"] = calls
+    info["nonquiet"] = nonquiet
     shutil.rmtree(sub, ignore_errors=True)
-    return mops, obs
+    return out_ops, obs, info
+
+
+def _sig(st):
+    return None if st[0] is None else (len(st[0]), st[1])
+
+
+def _sig_determines(states):
+    seen = {}
+    for st in states:
+        if st[0] is None:
+            continue
+        if seen.setdefault(_sig(st), st[0]) != st[0]:
+            return False
+    return True
+
+
+def _poisoned_by_design(calls, ix):
+    """the one situation in which the unchanged algorithm (remember the signature taken BEFORE hashing) reports a
+    stale hash although (size, mtime_ns) determines the content: an earlier etag() call started at the signature the
+    file has now, the file changed inside that call before the call had read it, and no etag() call has since
+    started at another signature and returned (c16_midcall_change_refuted; corpus seq-midcall-change-then-restore).
+    Judged from what the harness did and saw, not from the source's private fields."""
+    cur = _sig(calls[ix]["start"])
+    for q in reversed(calls[:ix]):
+        if _sig(q["start"]) == cur:
+            if q["inside"] and q["read"] is not None and q["read"] != q["start"][0]:
+                return True
+            continue
+        if q["value"][0] == "tag":
+            return False
+    return False
 
 
 def _pattern(tags):
@@ -948,18 +1217,19 @@ def check_seq(chk, cases):
         for i, c in enumerate(cases):
             runs.append(_run_seq_impl(c, d, i))
         lines = []
-        for c, (mops, _obs) in zip(cases, runs):
+        for c, (mops, _obs, _info) in zip(cases, runs):
             ptab, stab = _tables(sorted(set(_seq_contents(c).values())))
             lines.append(lib.model_call("fs.run", c["name"], bool(c.get("incl")), bool(c.get("validate")), [],
                                         mops, ptab, stab))
         answers = [lib.dec(x) for x in lib.run_model(MODEL, lines, chunk=250, procs=14)]
     finally:
         shutil.rmtree(d, ignore_errors=True)
-    for c, (mops, obs), m in zip(cases, runs, answers):
-        _judge_seq(chk, c, mops, obs, m)
+    for c, (mops, obs, info), m in zip(cases, runs, answers):
+        _judge_seq(chk, c, mops, obs, m, info)
 
 
-def _judge_seq(chk, c, mops, obs, m):
+def _judge_seq(chk, c, mops, obs, m, info=None):
+    info = info or {}
     incl = bool(c.get("incl"))
     fam = c.get("fam", "seq")
     fmt = _expected_format(c["name"])
@@ -1009,6 +1279,8 @@ def _judge_seq(chk, c, mops, obs, m):
     if m["hyp"]:
         for i, (o, _mo) in enumerate(tags):
             b, mt = o["disk"]
+            if o.get("inside"):
+                continue    # the file changed during this very call: not an observation of a quiet file
             if o["value"][0] != "tag":
                 viol.append(("etag() raised in a sequential history", o["value"], None))
                 continue
@@ -1017,7 +1289,7 @@ def _judge_seq(chk, c, mops, obs, m):
             for j in range(i):
                 o2 = tags[j][0]
                 b2, mt2 = o2["disk"]
-                if b is None or b2 is None or o2["value"][0] != "tag":
+                if b is None or b2 is None or o2["value"][0] != "tag" or o2.get("inside"):
                     continue
                 t1, t2 = o2["value"][1], o["value"][1]
                 if b == b2 and (not incl or mt == mt2) and t1 != t2:
@@ -1027,9 +1299,44 @@ def _judge_seq(chk, c, mops, obs, m):
                                  [t1, t2], None))
                 if incl and mt != mt2 and t1 == t2:
                     viol.append(("include_mtime: modification time differs but the tags are equal", [t1, t2], None))
+    # ---- histories with a change INSIDE an etag() call (at any file-system call boundary): every etag() call during
+    #      which the file is quiet - and the two made after the file has stopped changing - must report what a fresh
+    #      source reports for the same file, as long as (size, mtime_ns) determines the content along the history
+    if info.get("nonquiet"):
+        chk.count(f"{fam}:incall_changes", info["incall"])
+        calls = info["calls"]
+        for q in calls:
+            if q.get("k") is not None:
+                chk.count(f"{fam}:incall:" + ("after-call" if not q["inside"] else "k%d" % min(q["k"], 9)))
+        if _sig_determines(info["states"]):
+            for ix, q in enumerate(calls):
+                if q["inside"] or q.get("k") is not None:
+                    continue
+                fr = q.get("fresh") or (obs[q["obs"]].get("fresh") if q["obs"] is not None else None)
+                if fr is None or fr == q["value"]:
+                    continue
+                if _poisoned_by_design(calls, ix):
+                    chk.count(f"{fam}:stale-after-return-to-old-signature (outside the quantifier)")
+                    continue
+                prev = [x for x in calls[:ix] if x["inside"]]
+                viol.append(("etag() on a quiet file differs from the tag a fresh FilePolicySource computes for the "
+                             "same file (the file changed inside an earlier etag() call and has not returned to the "
+                             "signature that call started from): content / mtime differ but the tag does not follow"
+                             + (" - still so once the file has stopped changing" if q.get("tail") else ""),
+                             {"etag": q["value"], "fresh_source": fr,
+                              "file_now": [None if q["start"][0] is None else q["start"][0].decode("utf-8", "replace"),
+                                           q["start"][1]],
+                              "change_landed_after_fs_call": prev[-1]["k"] if prev else None,
+                              "fs_calls_of_that_etag": prev[-1]["fs_calls"] if prev else None}, None))
+                break
+        else:
+            chk.count(f"{fam}:incall:signature-does-not-determine-content")
     for clause, iv, mv in viol[:3]:
         chk.violation(clause, c, impl=iv, model=mv)
     if viol:
+        return
+    if info.get("torn"):
+        chk.count(f"{fam}:incall:torn-read (no model counterpart)")
         return
     # ---- correspondence with the model: equality pattern of the tags (+ mtime part), load results
     mtags = []
@@ -1114,6 +1421,67 @@ def gen_seq(chk):
         cases.append({"fam": "seq", "name": "p" + rng.choice([".json", ".yaml", ".yml", ".YAML", ".txt"]),
                       "incl": rng.random() < 0.5, "ops": [rng.choice(alpha3) for _ in range(n)],
                       "contents": {"d": extra}, "chunk": rng.choice([None, None, 1, 7, 64])})
+    return cases
+
+
+_FS_CALLS = {}
+
+
+def fs_calls_of_etag(chunk=None):
+    """dry run on the implementation under test: how many file-system calls one hashing etag() makes on its path
+    (so that a change can be scheduled after each of them, whatever they are)."""
+    if chunk not in _FS_CALLS:
+        from rbacx.store.file_store import FilePolicySource
+
+        d = tempfile.mkdtemp(prefix="c16_")
+        try:
+            path = os.path.join(d, "p.json")
+            with open(path, "wb") as f:
+                f.write(A.encode())
+            src = FilePolicySource(path, **({"chunk_size": chunk} if chunk else {}))
+            _FS_CALLS[chunk] = max(1, len(fs_calls_of(src.etag, path)))
+        finally:
+            shutil.rmtree(d, ignore_errors=True)
+    return _FS_CALLS[chunk]
+
+
+def gen_incall(chk):
+    """the file changes INSIDE one etag() call: after the k-th file-system call that the call makes on its path,
+    for every k the dry run shows (and k+1: right after the call), from several cache states, followed by quiet
+    etag() calls, also after the file came back to an earlier signature."""
+    rng = chk.rng
+    thorough = chk.tier != "quick"
+    cases = []
+    K = fs_calls_of_etag()
+    pres = [["Wa"], ["Wa", "E"], ["Wa", "E", "T"], ["Wa", "E", "Ib"], ["Ra"], ["Ra", "E"], ["Wc", "E", "Wa"]]
+    changes = ["Wb", "Wc", "Ib", "Ic", "Rb", "T", "D", "Q"]
+    posts = [["E", "E"], ["Ra", "E", "E"], ["T", "E"], ["L", "E"]]
+    if thorough:
+        pres += [["Ra", "E", "T"], ["Wa", "L"], ["Wa", "E", "D", "Wa"]]
+        changes += ["Ra", "Wa", "Fc"]
+        posts += [["E", "Rb", "E"], ["D", "E", "Ra", "E"], ["E@1:Ra", "E"]]
+    configs = [(".json", False), (".json", True)] + ([(".yaml", False), (".yml", True)] if thorough else [])
+    for pre in pres:
+        for k in range(1, K + 2):
+            for x in changes:
+                for post in posts:
+                    for ext, incl in configs:
+                        cases.append({"fam": "seq", "name": "p" + ext, "incl": incl,
+                                      "ops": pre + ["E@%d:%s" % (k, x)] + post})
+    # several reads per hash: a change between two chunk reads
+    for chunk in (5, 22):
+        Kc = fs_calls_of_etag(chunk)
+        for k in range(1, Kc + 2):
+            for x in ("Ib", "Wb", "Ic", "D"):
+                cases.append({"fam": "seq", "name": "p.json", "incl": bool(k % 2), "chunk": chunk,
+                              "ops": ["Wa", "E@%d:%s" % (k, x), "E", "E"]})
+    # seeded longer histories
+    alpha = ["Wa", "Wb", "Wc", "Ia", "Ib", "Ic", "Ra", "Rb", "T", "D", "E", "E", "L", "Q"] + \
+            ["E@%d:%s" % (k, x) for k in range(1, K + 2) for x in ("Wb", "Wc", "Ib", "Ra", "T", "D")]
+    for _ in range(4000 if thorough else 300):
+        n = rng.randint(4, 10)
+        cases.append({"fam": "seq", "name": "p" + rng.choice([".json", ".yaml"]), "incl": rng.random() < 0.5,
+                      "ops": [rng.choice(alpha) for _ in range(n)] + ["E"], "chunk": rng.choice([None, None, 7])})
     return cases
 
 
@@ -1341,6 +1709,10 @@ def run(chk):
     check_format(chk)
     check_cases(chk, gen_doc(chk))
     check_cases(chk, gen_seq(chk))
+    inc = gen_incall(chk)
+    chk.extra["etag_fs_calls_seen_on_dry_run"] = {"default_chunk": fs_calls_of_etag(), "chunk_5": fs_calls_of_etag(5)}
+    chk.extra["incall_cases"] = len(inc)
+    check_cases(chk, inc)
     for chunk in (None, 4096):
         check_cases(chk, [{"fam": "big", "name": "p.json", "incl": False, "chunk": chunk,
                            "ops": ["a", "E", "b", "E", "a", "E", "L", "c", "E", "E"]}])
